@@ -75,3 +75,22 @@ Theorem C03_indexed_repeat_source_constants :
 Proof. exact indexed_repeat_constants_pinned. Qed.
 Print Assumptions C03_indexed_repeat_source_constants.
 
+
+(* ---- several indexed-repeat() calls in one expression: which call, if any, a reference sits in (Model/CallScan.v; the loop's source is pinned) ---- *)
+Require Import PX.Model.CallScan PX.Proofs.CallScan.
+(* for ANY number of calls (in text order, not overlapping): a reference inside a call is found in exactly that call ... *)
+Theorem C03_reference_found_in_its_call : forall calls from s e c, calls_ok from calls -> s < e -> In c calls -> inside c s e -> scan calls s e = InCall c.
+Proof. exact scan_finds_the_call. Qed.
+Print Assumptions C03_reference_found_in_its_call.
+(* ... a reference outside every call (before, between, after) is outside, hence relative ... *)
+Theorem C03_reference_outside_every_call : forall calls from s e, calls_ok from calls -> s < e -> (forall c, In c calls -> apart c s e) -> scan calls s e = Outside.
+Proof. exact scan_outside. Qed.
+Print Assumptions C03_reference_outside_every_call.
+(* ... and the scan never ends without a decision *)
+Theorem C03_call_scan_decides : forall calls s e, scan calls s e <> FellThrough.
+Proof. exact scan_never_falls_through. Qed.
+Print Assumptions C03_call_scan_decides.
+(* the loop as it was before the repair (defect F60) misses a reference inside the second of two calls *)
+Theorem C03_unrepaired_call_scan_refuted : exists calls s e c, calls_ok 0 calls /\ s < e /\ In c calls /\ inside c s e /\ old_scan calls s e <> InCall c.
+Proof. exact old_scan_refuted. Qed.
+Print Assumptions C03_unrepaired_call_scan_refuted.
